@@ -185,3 +185,18 @@ package set
 //@   writes MapC<Int~Slice> (set.Set<Any>.vals RS)
 //@   ensures[C03] kept: (=> (r_equiv R v v) inR)
 //
+// Copy (C20): every bucket of the copy is an array of its own - Add appends to a bucket in place when it has
+// spare capacity, so a bucket array shared with the receiver would let a change of one set show in the other.
+//@ func (set.Set[interface{}]).Copy[interface{}]
+//@   tags C20
+//@   let RM ($at<MapC<Int~Slice>> (set.Set<Any>.vals result))
+//@   requires (not (= (set.Set<Any>.rules s) nil.Any))
+//@   ensures[C20] own_buckets: (and (< (set.Set<Any>.vals result) 0) (forall ((k Int)) (! (=> (select (MapC<Int~Slice>.dom RM) k) (< (Slice.ptr (select (MapC<Int~Slice>.val RM) k)) 0)) :pattern ((select (MapC<Int~Slice>.val RM) k)))))
+//@   let LM ($at<MapC<Int~Slice>> (set.Set<Any>.vals ret))
+//@   loop 1 invariant (and (< (set.Set<Any>.vals ret) 0) (forall ((k Int)) (! (=> (select (MapC<Int~Slice>.dom LM) k) (< (Slice.ptr (select (MapC<Int~Slice>.val LM) k)) 0)) :pattern ((select (MapC<Int~Slice>.val LM) k)))))
+//
+//@ func set.NewSet[interface{}]
+//@   tags C20
+//@   fresh_obj MapC<Int~Slice> (set.Set<Any>.vals result)
+//@   let NM ($at<MapC<Int~Slice>> (set.Set<Any>.vals result))
+//@   ensures[C20] empty: (and (= (set.Set<Any>.rules result) rules) (not (= (set.Set<Any>.vals result) 0)) (MapC<Int~Slice>.ok NM) (forall ((k Int)) (! (not (select (MapC<Int~Slice>.dom NM) k)) :pattern ((select (MapC<Int~Slice>.dom NM) k)))))
